@@ -515,12 +515,20 @@ class SSETransport(Transport):
                         logger.warning(
                             f"Unexpected response status: {response.status_code}"
                         )
-                        # Try to parse response anyway
+                        # Pass the body on only if it answers THIS request; anything
+                        # else (an error page, {"detail": ...}, a non-object) still owes
+                        # the caller a terminal message carrying the request's id
                         try:
                             response_data = response.json()
-                            await self._route_incoming_message(response_data)
                         except Exception:
-                            # Send error response
+                            response_data = None
+                        if (
+                            isinstance(response_data, dict)
+                            and response_data.get("id") == request_id
+                            and ("result" in response_data or "error" in response_data)
+                        ):
+                            await self._route_incoming_message(response_data)
+                        else:
                             error_response = {
                                 "jsonrpc": "2.0",
                                 "id": request_id,
